@@ -178,7 +178,8 @@ func runManagerCase(r *vk.Run, mgr *forwarding.Manager, mc mgrCase) (sig string,
 
 	lr := &linkReport{r: r, where: "manager", extra: map[string]any{"session": mc.Index}}
 	// Self-ending and failing links: both wrappers get closed by the forwarder.
-	var lo, hi [2]uint64 // [0] outbound = source->destination, [1] inbound
+	var lo, hi [2]uint64           // [0] outbound = source->destination, [1] inbound
+	var faultedDelivered [2]uint64 // bytes the peers of faulted connections received (part of lo)
 	stay := 0
 	for i, l := range links {
 		s := l.Spec
@@ -214,6 +215,32 @@ func runManagerCase(r *vk.Run, mgr *forwarding.Manager, mc mgrCase) (sig string,
 			r.Inconclusive("scheduler-unhealthy")
 			terminate()
 			return "", true
+		}
+		if !s.clean() {
+			// Sound lower bound for a faulted connection: every byte the
+			// receiving peer read was returned as written by some Write call of
+			// the forwarder, so (at quiescence) the totals include it - also the
+			// prefix delivered by a write that then failed with n > 0.
+			readers := make(chan struct{})
+			go func(l *link) { <-l.A.readerDone; <-l.B.readerDone; close(readers) }(l)
+			switch c33health.waitDone(readers, hangBound) {
+			case "ok":
+			case "hang":
+				lr.violate(l, "not-closed", "both wrappers were closed but a peer is still blocked on its connection")
+				terminate()
+				return "", true
+			default:
+				r.Inconclusive("scheduler-unhealthy")
+				terminate()
+				return "", true
+			}
+			lo[0] += uint64(l.B.recv.Load()) // source -> destination: what the destination's peer read
+			lo[1] += uint64(l.A.recv.Load())
+			faultedDelivered[0] += uint64(l.B.recv.Load())
+			faultedDelivered[1] += uint64(l.A.recv.Load())
+			if l.first.partialN.Load()+l.second.partialN.Load() > 0 {
+				r.Count("manager_partial_writes_delivering_a_prefix", 1)
+			}
 		}
 	}
 
@@ -260,7 +287,7 @@ func runManagerCase(r *vk.Run, mgr *forwarding.Manager, mc mgrCase) (sig string,
 			return map[string]any{"list_error": listErr}
 		}
 		return map[string]any{"list_error": listErr, "status": last.Status.String(), "last_error": last.LastError, "open": last.OpenConnections, "total": last.TotalConnections, "outbound": last.TotalOutboundData, "inbound": last.TotalInboundData,
-			"expected_open": stay, "expected_total": len(links), "expected_outbound": []uint64{lo[0], hi[0]}, "expected_inbound": []uint64{lo[1], hi[1]}, "handed_out_source": src.opens.Load(), "handed_out_destination": dst.opens.Load()}
+			"expected_open": stay, "expected_total": len(links), "expected_outbound": []uint64{lo[0], hi[0]}, "expected_inbound": []uint64{lo[1], hi[1]}, "handed_out_source": src.opens.Load(), "handed_out_destination": dst.opens.Load(), "received_by_peers_of_faulted_connections": []uint64{faultedDelivered[0], faultedDelivered[1]}}
 	}
 	if listErr != "" || last == nil || !okState(last) {
 		kind := "statistics-mismatch"
@@ -270,6 +297,10 @@ func runManagerCase(r *vk.Run, mgr *forwarding.Manager, mc mgrCase) (sig string,
 				kind = "total-connections-mismatch"
 			case last.TotalOutboundData == hi[1] && last.TotalInboundData == hi[0] && hi[0] != hi[1]:
 				kind = "data-directions-swapped"
+			case faultedDelivered[0]+faultedDelivered[1] > 0 && last.TotalOutboundData <= hi[0] && last.TotalInboundData <= hi[1] &&
+				(last.TotalOutboundData < lo[0] || last.TotalInboundData < lo[1]) &&
+				last.TotalOutboundData >= lo[0]-faultedDelivered[0] && last.TotalInboundData >= lo[1]-faultedDelivered[1]:
+				kind = "totals-below-delivered" // only the bytes delivered on faulted connections are missing
 			case last.TotalOutboundData < lo[0] || last.TotalOutboundData > hi[0] || last.TotalInboundData < lo[1] || last.TotalInboundData > hi[1]:
 				kind = "data-totals-mismatch"
 			case last.OpenConnections != uint64(stay):
@@ -282,6 +313,9 @@ func runManagerCase(r *vk.Run, mgr *forwarding.Manager, mc mgrCase) (sig string,
 	}
 	if src.opens.Load() != int64(len(links)) || dst.opens.Load() != int64(len(links)) {
 		fail("total-connections-mismatch", "endpoint Open counts differ from the number of connections queued", stateDesc())
+	}
+	if faultedDelivered[0]+faultedDelivered[1] > 0 {
+		r.Count("manager_lower_bound_bytes_from_faulted_connections", int64(faultedDelivered[0]+faultedDelivered[1]))
 	}
 	r.Count("manager_connections", int64(len(links)))
 	r.Count("manager_bytes_outbound_audited", int64(last.TotalOutboundData))
@@ -374,7 +408,7 @@ func c33Manager(r *vk.Run) {
 		onlyClean := rng.Intn(2) == 0
 		for k := 0; k < nl; k++ {
 			modes := []string{"concurrent", "concurrent", "A-then-B", "B-then-A", "A-only", "B-only", "none"}
-			faults := []string{"none", "none", "none", "none", "none", "first-read-error", "first-write-error", "second-read-error", "second-write-error", "A-abort", "B-abort"}
+			faults := []string{"none", "none", "none", "none", "none", "first-read-error", "first-write-error", "second-read-error", "second-write-error", "first-partial-write", "second-partial-write", "second-partial-write", "A-abort", "B-abort"}
 			if onlyClean {
 				faults = []string{"none"}
 			}
